@@ -308,7 +308,7 @@ func (g *PG) stmt(depth int) {
 		g.line(Var(name, e))
 		g.declare(gvar{name: name, kind: k})
 	case choice < 8: // assignment
-		if v, ok := g.pickVar(""); ok && v.kind != "fn" {
+		if v, ok := g.pickVar(""); ok && v.kind != "fn" && !isLoopVar(v.name) {
 			e, k := kindOfExprGen(g, 2)
 			g.line(v.name + " = " + e + ";")
 			g.setKind(v.name, k)
@@ -445,4 +445,18 @@ func (g *PG) Program(depth int) string {
 		g.stmt(depth)
 	}
 	return g.b.String()
+}
+
+// isLoopVar: generated loop counters (i<N>, w<N>) are never reassigned by
+// random statements, so that every generated loop stays bounded.
+func isLoopVar(name string) bool {
+	if len(name) < 2 || (name[0] != 'i' && name[0] != 'w') {
+		return false
+	}
+	for _, c := range name[1:] {
+		if c < '0' || c > '9' {
+			return false
+		}
+	}
+	return true
 }
